@@ -15,9 +15,13 @@ ROOT = os.path.dirname(os.path.dirname(os.path.abspath(__file__)))
 REPO = os.environ.get("VERIF_REPO", "/repo")
 SPEC = os.path.join(ROOT, "spec")
 HARNESS = os.path.join(ROOT, "harness")
-BUILD = os.path.join(ROOT, ".build")
-WORK = os.path.join(ROOT, ".work")
-EVIDENCE = os.path.join(ROOT, "evidence")
+# (the overrides serve tools/seed_eval.py --isolated: a seeded change is evaluated on a scratch copy of the
+#  repository with its own build cache, work directory, evidence and replays, so that nothing it produces
+#  can be mistaken for a result on the real tree)
+BUILD = os.environ.get("VERIF_BUILD", os.path.join(ROOT, ".build"))
+WORK = os.environ.get("VERIF_WORK", os.path.join(ROOT, ".work"))
+EVIDENCE = os.environ.get("VERIF_EVIDENCE", os.path.join(ROOT, "evidence"))
+REPLAYS = os.environ.get("VERIF_REPLAYS", os.path.join(ROOT, "replays"))
 GUARD = "BBLANCHON_ARDUINOJSON_VERIF"
 NCPU = os.cpu_count() or 4
 TLC_CP = "/opt/veriftools/tla/tla2tools.jar:/opt/veriftools/tla/CommunityModules-deps.jar"
@@ -356,10 +360,10 @@ class Check:
         self.known_hits = []
         self.wd = os.path.join(WORK, pid)
         os.makedirs(self.wd, exist_ok=True)
-        os.makedirs(os.path.join(ROOT, "replays"), exist_ok=True)
+        os.makedirs(REPLAYS, exist_ok=True)
         # replays of an earlier run of this check and tier would be mistaken for this run's
         import glob
-        for old in glob.glob(os.path.join(ROOT, "replays", f"{pid}-{tier}-*.txt")):
+        for old in glob.glob(os.path.join(REPLAYS, f"{pid}-{tier}-*.txt")):
             os.remove(old)
 
     def phase(self, name, **kv):
@@ -386,7 +390,7 @@ class Check:
                     self.known(k["id"], k["what"])
                 return
         name = replay_name or f"{self.pid}-{self.tier}-{len(self.violations)}.txt"
-        path = os.path.join(ROOT, "replays", name)
+        path = os.path.join(REPLAYS, name)
         with open(path, "w") as f:
             f.write(what + "\n")
             if replay_content:
